@@ -17,7 +17,7 @@ const NOBODY: usize = usize::MAX;
 /// a thread whose last S scheduling points were all loads counts as spinning
 pub const SPIN_S: u32 = 24;
 /// consecutive load-only points (no RMW, store, op boundary anywhere) after which the execution is stuck
-pub const STUCK_L: u64 = 1500;
+pub const STUCK_L: u64 = 600;
 
 #[derive(Clone, Copy, Debug, PartialEq, Eq)]
 pub enum PointKind {
@@ -401,7 +401,7 @@ impl Sched {
                 return;
             }
             spins += 1;
-            if spins < 64 {
+            if spins < 2000 {
                 std::hint::spin_loop();
             } else {
                 std::thread::park();
